@@ -22,7 +22,14 @@ unsafe impl<T: ?Sized, R: RawMutex> RawLock for Mutex<T, R> {
 
 		// if the closure unwraps, then the mutex will be killed
 		let this = AssertUnwindSafe(self);
-		handle_unwind(|| this.raw.lock(), || self.poison())
+		handle_unwind(|| this.raw.lock(), || self.poison());
+
+		// the mutex may have been killed while this thread was waiting for it
+		if self.poison.is_poisoned() {
+			// safety: we just locked it
+			self.raw.unlock();
+			panic!("The mutex has been killed");
+		}
 	}
 
 	unsafe fn raw_try_write(&self) -> bool {
